@@ -164,6 +164,9 @@ fn run_scenario(sc: &Value, idx: usize, bin: &Path, scratch: &Path, local: bool)
             bps = rs.iter().map(|x| match x.as_str().unwrap() { "current" => json!({"current": true}), "other" => json!("heroku/procfile"), ws => json!({"workspace": ws.trim_start_matches("ws:")}) }).collect();
         }
         cfg["buildpacks"] = json!(bps);
+        // every fourth local configuration builds for the other musl target, every third with the release profile
+        if idx % 4 == 1 { cfg["target_triple"] = json!(if std::env::consts::ARCH == "x86_64" { "aarch64-unknown-linux-musl" } else { "x86_64-unknown-linux-musl" }); }
+        if idx % 3 == 2 { cfg["release"] = json!(true); }
         let cargo = Command::new("rustup").args(["which", "cargo"]).output().ok().filter(|o| o.status.success()).map(|o| String::from_utf8_lossy(&o.stdout).trim().to_string()).or_else(|| {
             // no rustup: the first cargo on PATH
             std::env::var_os("PATH").and_then(|p| std::env::split_paths(&p).map(|d| d.join("cargo")).find(|c| c.is_file())).map(|c| c.to_string_lossy().to_string())
